@@ -252,8 +252,8 @@ class OnePort(Network, ImmittanceMixin):
 
         # This is for determining impedances
         if not isinstance(kind, str):
-            # AC
-            domain = kind
+            # AC, kind is the angular frequency
+            domain = j * kind
         elif kind in ('super', 'time', 't'):
             domain = 't'
         elif kind in ('laplace', 'ivp', 's'):
@@ -1802,6 +1802,8 @@ class VoltageSourceBase(OnePort):
 
         """
 
+        if kind == 's':
+            kind = 'laplace'
         return SuperpositionVoltage(self.voc).select(kind)
 
 
@@ -2092,7 +2094,9 @@ class CurrentSourceBase(OnePort):
         """Return expression for current through component given
         applied voltage."""
 
-        return SuperpositionCurrent(self.isc).select(kind)
+        if kind == 's':
+            kind = 'laplace'
+        return -SuperpositionCurrent(self.isc).select(kind)
 
 
 class sI(CurrentSourceBase):
